@@ -8,6 +8,9 @@ CONSTANTS D = 4
           MaxLife = 480000
           AddrSectorsMax = 4
           AddrPartsMax = 3
+          MaxPC = 86400
+          ChalDelay = 1
+          WithPC = TRUE
           MaxEpoch = 200
           MaxSectors = 5
           ExportLen = 40
